@@ -50,7 +50,7 @@ Lemma save_and_log_tot : forall a x ri sr name value cat nid input x' v,
   save_and_log a x ri sr name value cat nid input = Done x' v -> totx x' = totx x.
 Proof.
   intros a x ri sr name value cat nid input x' v. unfold save_and_log.
-  destruct (trunc value _); [|discriminate]. destruct (get_run (session_ x) ri).
+  destruct (trunc value _); [|discriminate]. destruct (trunc_ellipsis input _) as [kept|]; [|discriminate]. destruct (get_run (session_ x) ri).
   - destruct (save_result _ _) as [rs ch]. intros H; inversion H; subst.
     destruct ch; rewrite ?totx_log_event; apply totx_upd_same; reflexivity.
   - intros H; inversion H; reflexivity.
